@@ -21,15 +21,13 @@ def run(path: str, old_version: str, new_version: str) -> None:
         # Python2 compatibility
         # pylint:disable=consider-using-with
         proc = sp.Popen(str(pl.Path(path).absolute()), env=env, stdout=sp.PIPE, stderr=sp.PIPE)
-        if proc.stdout is not None:
-            with proc.stdout as out:
-                for line in iter(out.readline, b''):
-                    logger.info(f"\t{line.decode('utf8').strip()}")
-        if proc.stderr is not None:
-            with proc.stderr as err:
-                for line in iter(err.readline, b''):
-                    logger.error(f"\t{line.decode('utf8').strip()}")
-        proc.wait()
+        # NOTE: both pipes are drained concurrently. Reading stdout to its end first
+        #   blocks forever when the script fills the stderr pipe in the meantime.
+        out_data, err_data = proc.communicate()
+        for line in out_data.splitlines():
+            logger.info(f"\t{line.decode('utf8', errors='replace').strip()}")
+        for line in err_data.splitlines():
+            logger.error(f"\t{line.decode('utf8', errors='replace').strip()}")
     except IOError as err:
         logger.error(f"\t{err}")
         logger.error("Script exited with an error. Stopping")
